@@ -12,6 +12,7 @@ THEOREMS = [
     "Pyribs.GenFProofs.batch_status_from_source",
     "Pyribs.GenFProofs.batch_value_from_source",
     "Pyribs.GenFProofs.batch_single_agree_from_source",
+    "Pyribs.GenFProofs.batch_feedback_spec_from_source",
     "Pyribs.GenFProofs.value_matches",
     "Pyribs.GenFProofs.batch_value_matches",
     "Pyribs.C02.judge_spec",
